@@ -37,7 +37,7 @@ var defects = []string{"import-cycle", "import-self", "include-cycle", "typedef-
 	"dangling-uses-augment-absolute", "illegal-config-in-remote-grouping", "illegal-default-in-remote-grouping",
 	"dangling-unique-last", "dangling-unique-inner", "dangling-unique-skips-choice", "dangling-unique-via-list", "dangling-unique-non-leaf",
 	"odd-extension-prefix", "odd-extension-name", "illegal-grouping-uses-deprecated-grouping", "include-self", "dangling-import-include-chain", "illegal-xpath-prefix-twin",
-	"odd-feature-chain-into-other-module", "odd-first-use-of-missing-module-when-built", "odd-deviations-that-do-not-commute"}
+	"odd-feature-chain-into-other-module", "odd-first-use-of-missing-module-when-built", "odd-deviations-that-do-not-commute", "odd-scoped-grouping-across-submodules", "odd-status-chain-across-submodules"}
 
 func str(s string) *sg.TypeSpec { return &sg.TypeSpec{Name: s} }
 
@@ -99,7 +99,7 @@ func inject(mods []*sg.Mod, d string, pick func(n int) int) {
 		// submodules are appended by the caller through extra modules
 	case "include-self", "dangling-import-include-chain":
 		host.Includes = append(host.Includes, "sa")
-	case "illegal-xpath-prefix-twin", "odd-feature-chain-into-other-module", "odd-deviations-that-do-not-commute":
+	case "illegal-xpath-prefix-twin", "odd-feature-chain-into-other-module", "odd-deviations-that-do-not-commute", "odd-scoped-grouping-across-submodules", "odd-status-chain-across-submodules":
 		// handled by the caller (extra modules)
 	case "typedef-cycle-used":
 		m.Typedefs = append(m.Typedefs, &sg.Typedef{Name: "cyc-a", Type: str("cyc-b")}, &sg.Typedef{Name: "cyc-b", Type: str("cyc-a")})
@@ -376,6 +376,25 @@ func extraMods(c Case) []*sg.Mod {
 			both.Imports[0], both.Imports[1] = both.Imports[1], both.Imports[0]
 		}
 		return append(append([]*sg.Mod(nil), mods...), tgt, da, db, both)
+	case "odd-scoped-grouping-across-submodules", "odd-status-chain-across-submodules":
+		// groupings of two submodules of one module, the first using the second's below its top level; the second holds a
+		// grouping of its own scope (or: all of them deprecated).  Which submodule is looked at first must not matter.
+		za := &sg.Mod{Name: "zsa", Prefix: "zsa", Includes: []string{"zs1", "zs2"}}
+		var s1, s2 *sg.Mod
+		if c.Defect == "odd-scoped-grouping-across-submodules" {
+			s1 = &sg.Mod{Name: "zs1", Prefix: "zsa", BelongsTo: "zsa", Includes: []string{"zs2"}, Groupings: []*sg.Grouping{{Name: "zg", Kids: []*sg.Node{{Kind: "container", Name: "c", Kids: []*sg.Node{{Kind: "uses", Name: "zh"}}}}}}}
+			s2 = &sg.Mod{Name: "zs2", Prefix: "zsa", BelongsTo: "zsa", Groupings: []*sg.Grouping{{Name: "zh", Kids: []*sg.Node{{Kind: "container", Name: "c2",
+				Groupings: []*sg.Grouping{{Name: "zk", Kids: []*sg.Node{{Kind: "leaf", Name: "x", Type: str("string")}}}}, Kids: []*sg.Node{{Kind: "uses", Name: "zk"}}}}}}}
+		} else {
+			s1 = &sg.Mod{Name: "zs1", Prefix: "zsa", BelongsTo: "zsa", Includes: []string{"zs2"}, Groupings: []*sg.Grouping{{Name: "zg", Status: "deprecated", Kids: []*sg.Node{{Kind: "container", Name: "c", Kids: []*sg.Node{{Kind: "uses", Name: "zh"}}}}}}}
+			s2 = &sg.Mod{Name: "zs2", Prefix: "zsa", BelongsTo: "zsa", Groupings: []*sg.Grouping{
+				{Name: "zh", Status: "deprecated", Kids: []*sg.Node{{Kind: "container", Name: "c2", Kids: []*sg.Node{{Kind: "uses", Name: "zk"}}}}},
+				{Name: "zk", Status: "deprecated", Kids: []*sg.Node{{Kind: "leaf", Name: "x", Type: str("string")}}}}}
+		}
+		if len(mods)%2 == 0 {
+			za.Nodes = []*sg.Node{{Kind: "container", Name: "zsa-top", Status: s1.Groupings[0].Status, Kids: []*sg.Node{{Kind: "uses", Name: "zg"}}}}
+		}
+		return append(append([]*sg.Mod(nil), mods...), za, s1, s2)
 	case "belongs-to-missing":
 		return append(append([]*sg.Mod(nil), mods...), &sg.Mod{Name: "orphan", Prefix: "own", BelongsTo: "no-such-module"})
 	case "illegal-config-in-remote-grouping", "illegal-default-in-remote-grouping":
